@@ -12,7 +12,8 @@ from ..common import Ctx
 MODULE = "GotranxProofs.Properties.C01"
 THEOREMS = ["Gx.C01.rhs_sound", "Gx.C01.rhs_progress", "Gx.C01.eval_cond_true", "Gx.C01.eval_cond_false",
             "Gx.C01.eval_rel", "Gx.C01.blend_gt", "Gx.C01.blend_lt", "Gx.checkRhs_sound", "Gx.exec_agree",
-            "Gx.exec_progress", "Gx.eval_congr"]
+            "Gx.exec_progress", "Gx.eval_congr", "Gx.C01.meaning_unique", "Gx.C01.meaning_exists", "Gx.solution_unique", "Gx.denote_stable",
+            "Gx.denote_equations"]
 PINS = ["Gx.Pins.grammar_ladder", "Gx.Pins.grammar_blocks", "Gx.Pins.grammar_names", "Gx.Pins.grammar_keywords",
         "Gx.Pins.grammar_no_extra_rules", "Gx.Pins.grammar_ignore"]
 
